@@ -402,14 +402,15 @@ def r0_substitution(ctx):
     r = Rule("C06.R0", "references are pure substitution: populate, the resolution step and the traversal evaluated on every kind of value",
              "`$t(path, {args})` renders exactly what the referenced key renders, with each supplied argument replacing the variable of that "
              "name wherever that variable comes from (a literal count fixes the branch, a `{{ var }}` count renames the count variable) ... "
-             "references that cannot be resolved, point at a subkey group, or are cyclic are rejected", floor=3)
+             "references that cannot be resolved, point at a subkey group, or are cyclic are rejected", floor=4)
     try:
         a = fkeval.check_populate(ctx, r)
         b = fkeval.check_inner(ctx, r)
         c = fkeval.check_traversal(ctx, r)
+        d = fkeval.check_args(ctx, r)
     except absint.Unknown as u:
         return r, False, str(u)
-    return r, a and b and c, "anchor missing"
+    return r, a and b and c and d, "anchor missing"
 
 
 MANIFEST_ENTRY = {
